@@ -2,6 +2,8 @@ package main
 
 import (
 	"fmt"
+	"go/types"
+	"regexp"
 	"strings"
 
 	"golang.org/x/tools/go/ssa"
@@ -35,7 +37,7 @@ func runC19(r *Run) {
 		a := w.AU(add)
 		var call ssa.Instruction
 		a.Instrs(func(in ssa.Instruction) {
-			if c, ok := in.(*ssa.Call); ok && a.sh.Of(c.Call.Value).String() == "p0.addTx" {
+			if c, ok := in.(*ssa.Call); ok && isApplyFnValue(a, c.Call.Value) {
 				call = in
 			}
 		})
@@ -94,7 +96,7 @@ func runC19(r *Run) {
 		r.Check(got["p0.BaseState"] == "p2" && got["p0.curState"] == "p2" && got["p0.isUpdated"] == "false", "C19.2", "Rebase(installs-base)", w.Pos(reb.Pos()), fmt.Sprintf("new base installed first: %v", got))
 		var call ssa.Instruction
 		a.Instrs(func(in ssa.Instruction) {
-			if c, ok := in.(*ssa.Call); ok && a.sh.Of(c.Call.Value).String() == "p0.addTx" {
+			if c, ok := in.(*ssa.Call); ok && isApplyFnValue(a, c.Call.Value) {
 				call = in
 			}
 		})
@@ -150,10 +152,10 @@ func runC19(r *Run) {
 		okApplied, okInval := false, false
 		for _, d := range dels {
 			v := a.sh.Of(d.(*ssa.Store).Val).String()
-			if v == "@slices.DeleteFunc(p0.Txs,@?(p0.txDeleter,p1,p3))" && call != nil && Dominates(d, call) == false && ReachesAfter(d, call) {
+			if deleterOf.MatchString(v) && strings.HasSuffix(v, ",p1,p3))") && call != nil && Dominates(d, call) == false && ReachesAfter(d, call) {
 				okApplied = true
 			}
-			if strings.HasPrefix(v, "@slices.DeleteFunc(p0.Txs,@?(p0.txDeleter,p1,phi(@append(") && call != nil && ReachesAfter(call, d) && !loopOf(call.Block())[d.Block()] {
+			if m := deleterOf.FindString(v); m != "" && strings.HasPrefix(strings.TrimPrefix(v, m), ",p1,phi(@append(") && call != nil && ReachesAfter(call, d) && !loopOf(call.Block())[d.Block()] {
 				okInval = true
 			}
 		}
@@ -355,4 +357,22 @@ func aliasesField(v ssa.Value, field string, depth int) bool {
 		}
 	}
 	return false
+}
+
+// the deleter callback: a func-typed field reached from the working state (whatever struct groups
+// the callbacks), applied to (ctx, rejected)
+var deleterOf = regexp.MustCompile(`^@slices\.DeleteFunc\(p0\.Txs,@\?\(p0(\.\w+)*\.txDeleter`)
+
+// isApplyFnValue: v is the user-supplied apply function held by the working state: a func value
+// loaded from a field path of the receiver with signature func(ctx, S, T) (S, error).
+func isApplyFnValue(a *FnA, v ssa.Value) bool {
+	sig, ok := v.Type().Underlying().(*types.Signature)
+	if !ok || sig.Params().Len() != 3 || sig.Results().Len() != 2 {
+		return false
+	}
+	if sig.Results().At(1).Type().String() != "error" {
+		return false
+	}
+	s := a.sh.Of(v).String()
+	return strings.HasPrefix(s, "p0.") && !strings.Contains(s, "(")
 }
